@@ -16,6 +16,8 @@ case "$PROP:$TIER" in
   C01:quick) ARGS="-segs 3";;
   C01:*) ARGS="-segs 4";;
   C02:*) ARGS="-len 2";;
+  C03:quick) ARGS="-segs 2";;
+  C03:*) ARGS="-segs 3";;
   C05:quick) ARGS="-max 32";;
   C05:*) ARGS="-max 128";;
   C06:quick) ARGS="-len 2 -check remote";;
